@@ -15,8 +15,9 @@ not compile or when `Match` panics (`route.globMatch` recovers: fix 749f459 of C
 `pick` is the configured picker, `skip` the redirect self-skip of `Lookup` (owned by C13).
 Case folding is ASCII (`lowerL`); `net.SplitHostPort`/`JoinHostPort` are modelled in full.
 
-The model describes the tree *with the repairs of D03, D05, D06, D06b and of the lossy key rewriting in
-`sortHostsReverseHostPort`* (fix commits listed in checks/C03.findings.json).
+The model describes the tree *with the repairs of D03, D05, D06, D06b, of the lossy key rewriting in
+`sortHostsReverseHostPort`, and of the two round-4 repairs of the host order (port compared after the host
+part; `*` below every other character)* (fix commits listed in checks/C03.findings.json).
 -/
 namespace Fabio.Model.C03
 open Fabio Fabio.Model.Route
@@ -98,20 +99,45 @@ def splitHostPort (s : Str) : Option (Str × Str) :=
 def joinHostPort (h p : Str) : Str :=
   if h.contains ':' then ['['] ++ h ++ [']', ':'] ++ p else h ++ [':'] ++ p
 
-/-- `ReverseHostPort`: the host part reversed rune-wise, the port kept. (On an error of `SplitHostPort`
-both results are empty, so the whole string is reversed.) -/
-def reverseHostPort (s : Str) : Str :=
+/-- the part of a key that `reverseHostPort` reverses: the host of `net.SplitHostPort`, the whole string when
+there is no port (on an error of `SplitHostPort` both results are empty) -/
+def hostPart (s : Str) : Str :=
   let hp := (splitHostPort s).getD ([], [])
-  let h := if hp.1.isEmpty then s else hp.1
-  if hp.2.isEmpty then h.reverse else joinHostPort h.reverse hp.2
+  if hp.1.isEmpty then s else hp.1
+
+def portPart (s : Str) : Str := ((splitHostPort s).getD ([], [])).2
+
+/-- the unexported `reverseHostPort`: (host part reversed rune-wise, port) -/
+def revParts (s : Str) : Str × Str := ((hostPart s).reverse, portPart s)
+
+/-- `ReverseHostPort`: the host part reversed rune-wise, the port kept. -/
+def reverseHostPort (s : Str) : Str :=
+  if (portPart s).isEmpty then (hostPart s).reverse else joinHostPort (hostPart s).reverse (portPart s)
 
 /-! ### the host order -/
 
-/-- the comparison of `sortHostsReverseHostPort` (`sort.Slice` less function): `a` goes strictly before
-`b` when its reversed name is greater, ties (distinct keys with one reversed name, e.g. `foo.com` and
-`foo.com:`) by the key itself. A strict total order on keys, so every correct sort gives the same list. -/
+/-- lexicographic order by a rank of the characters; a proper prefix goes first -/
+def ltBy (k : Char → Nat) : Str → Str → Bool
+  | [], [] => false
+  | [], _ :: _ => true
+  | _ :: _, [] => false
+  | a :: as, b :: bs => if k a < k b then true else if k b < k a then false else ltBy k as bs
+
+/-- rank of a character in `lessSpecificHost`: `*` stands below every other character (injective) -/
+def starRank (c : Char) : Nat := if c == '*' then 0 else c.toNat + 1
+
+/-- `lessSpecificHost a b` on two reversed host names (the Go loop compares bytes; on valid UTF-8 the first
+differing byte orders two strings like the first differing rune, and `*` is a rune of its own) -/
+def lessSpecificHost (a b : Str) : Bool := ltBy starRank a b
+
+/-- the comparison of `sortHostsReverseHostPort` (`sort.Slice` less function): `a` goes strictly before `b`
+when its reversed host part is more specific (`lessSpecificHost` the other way round); for equal host parts
+the greater port first; ties (distinct keys with one host part and port, e.g. `foo.com` and `foo.com:`) by
+the key itself. A strict total order on keys, so every correct sort gives the same list. -/
 def hostBefore (a b : Str) : Bool :=
-  if reverseHostPort a != reverseHostPort b then strLt (reverseHostPort b) (reverseHostPort a) else strLt b a
+  if (revParts a).1 != (revParts b).1 then lessSpecificHost (revParts b).1 (revParts a).1
+  else if (revParts a).2 != (revParts b).2 then strLt (revParts b).2 (revParts a).2
+  else strLt b a
 
 def insHost (x : Str) : List Str → List Str
   | [] => [x]
@@ -124,7 +150,7 @@ def sortByRev (xs : List Str) : List Str := xs.foldr insHost []
 def isGlobPat (k : Str) : Bool :=
   k.isEmpty || k.any (fun c => c == '*' || c == '?' || c == '[' || c == '{' || c == '\\')
 
-/-- `sortHostsReverseHostPort`: the hosts ordered by their reversed names, descending (the keys themselves
+/-- `sortHostsReverseHostPort`: the hosts ordered by `hostBefore` (the keys themselves
 are kept: repair of the lossy double reversal); then (repair of D06b) host names without glob
 metacharacters go before the patterns, order otherwise kept. -/
 def sortHosts (hs : List Str) : List Str :=
